@@ -197,3 +197,79 @@ fn c16_vacuity_twin() {
     clause_shapes(2, false);
     assert!(false, "vacuity twin: end of harness is reachable");
 }
+
+// ------------------------------------------------------------------------------------------
+// End to end through `Curve::new` with CONCRETE control points and a SYMBOLIC requested length
+// (symbolic points run out of memory, see above; concrete geometry keeps path construction
+// constant so that only the length adjustment is symbolic).
+// ------------------------------------------------------------------------------------------
+
+use rosu_map::section::general::GameMode;
+use rosu_map::section::hit_objects::{Curve, CurveBuffers, PathControlPoint, PathType};
+
+fn concrete_list(kind: PathType, pts: &[(f32, f32)]) -> Vec<PathControlPoint> {
+    let mut v = Vec::with_capacity(pts.len());
+    let mut i = 0;
+    while i < pts.len() {
+        let mut cp = PathControlPoint::new(Pos::new(pts[i].0, pts[i].1));
+        if i == 0 {
+            cp.path_type = Some(kind);
+        }
+        v.push(cp);
+        i += 1;
+    }
+    v
+}
+
+/// For a concrete control-point list: the natural curve (no requested length) and the curve for
+/// EVERY finite requested length L > 0 -- the total distance is L (within f64::EPSILON when the
+/// natural length already matched), unless the natural path ends in two identical points and is
+/// shorter than L; lengths and path stay consistent.
+fn e2e_concrete(mode: GameMode, kind: PathType, pts: &[(f32, f32)], ends_in_duplicate: bool) {
+    let list = concrete_list(kind, pts);
+    let mut bufs = CurveBuffers::default();
+    let natural = Curve::new(mode, &list, None, &mut bufs);
+    let nat = natural.dist();
+    assert!(natural.lengths().len() == natural.path().len());
+    assert!(nat > 0.0 && nat.is_finite());
+    let l: f64 = kani::any();
+    kani::assume(l.is_finite() && l > 0.0);
+    let curve = Curve::new(mode, &list, Some(l), &mut bufs);
+    let d = curve.dist();
+    if ends_in_duplicate && l > nat {
+        assert!(d == nat, "a path ending in two identical points must not be extended");
+    } else {
+        assert!(abs64(d - l) < f64::EPSILON, "the curve's distance is not the requested length");
+    }
+    assert!(curve.lengths()[0] == 0.0);
+    assert!(curve.path().len() >= 2 && curve.path().len() <= natural.path().len());
+    assert!(same_pos(curve.path()[0], natural.path()[0]));
+    assert!(curve.lengths().len() == curve.path().len() || (ends_in_duplicate && l > nat));
+    kani::cover!(l < nat * 0.5, "cut well inside the curve");
+    kani::cover!(l > nat * 2.0, "extension / no extension beyond the natural end");
+    core::mem::forget(natural);
+    core::mem::forget(curve);
+    core::mem::forget(bufs);
+    core::mem::forget(list);
+}
+
+// @verif property=C16 tier=quick timeout=1200 mem=20 bounds="Curve::new end to end: CONCRETE Linear points (0,0),(100,0),(100,50), osu! mode; requested length every finite f64 > 0"
+#[kani::proof]
+#[kani::unwind(8)]
+fn c16_e2e_linear3_concrete() {
+    e2e_concrete(GameMode::Osu, PathType::LINEAR, &[(0.0, 0.0), (100.0, 0.0), (100.0, 50.0)], false);
+}
+
+// @verif property=C16 tier=quick timeout=1200 mem=20 bounds="Curve::new end to end: CONCRETE Linear points ending in a duplicate (0,0),(100,0),(100,0); requested length every finite f64 > 0 (osu-stable exception)"
+#[kani::proof]
+#[kani::unwind(8)]
+fn c16_e2e_linear_dup_concrete() {
+    e2e_concrete(GameMode::Taiko, PathType::LINEAR, &[(0.0, 0.0), (100.0, 0.0), (100.0, 0.0)], true);
+}
+
+// @verif property=EXP tier=quick timeout=1800 mem=24 bounds="Curve::new end to end: CONCRETE Bezier control points (0,0),(50,80),(120,10); requested length every finite f64 > 0"
+#[kani::proof]
+#[kani::unwind(40)]
+fn c16_e2e_bezier3_concrete() {
+    e2e_concrete(GameMode::Osu, PathType::BEZIER, &[(0.0, 0.0), (50.0, 80.0), (120.0, 10.0)], false);
+}
